@@ -110,7 +110,7 @@ def _streams_info(pack_pos: int, folders: list[dict], with_crc: bool, substreams
 
 def make_7z(entries: list[dict], *, coder: bytes = LZMA, layout: str = "solid", with_crc: bool = True, with_attrs: bool = True,
             encoded_header: bool = False, mixed_coders: list[bytes] | None = None, header_coder: bytes = LZMA,
-            dict_size: int | None = None, with_substreams: bool = True) -> bytes:
+            dict_size: int | None = None, with_substreams: bool = True, bare_empty: bool = False) -> bytes:
     """entries: [{"name": str, "data": bytes | None (directory), "empty_stream": optional override, "phantom": bool, "attr": optional int,
                  "declared_size": optional int}]
 
@@ -124,6 +124,10 @@ def make_7z(entries: list[dict], *, coder: bytes = LZMA, layout: str = "solid", 
     0x10 on an entry that owns a data stream, 0x20 on an entry without one, 0x8000 | unix mode << 16 as p7zip writes it.
     layout: "solid" (one folder holding all non-empty files) | "per-file" (one folder each) | "pairs" (two files per folder)
     """
+    if bare_empty and not entries:
+        # what 7-Zip itself writes for an archive without any entry: the 32-byte signature header only (next header offset, size and CRC all 0)
+        start = struct.pack("<QQI", 0, 0, 0)
+        return b"7z\xbc\xaf\x27\x1c" + b"\x00\x04" + struct.pack("<I", zlib.crc32(start) & 0xFFFFFFFF) + start
     with_data = [e for e in entries if e.get("data") and not e.get("phantom")]
     groups: list[list[dict]] = []
     if layout == "solid":
